@@ -325,6 +325,45 @@ func (h *harness) genCase(r *rng, name, stream string, nops int) *Case {
 		}
 		return c
 	}
+	if h.prop == "C04" && r.chance(35) {
+		// a put in an old, barely fragmented segment; its delete in the newest segment; a torn tail there;
+		// recovery (metadata rebuilt); overwrites of OTHER keys that make only the newest segments eligible;
+		// compaction; second crash: the deleted key must not come back
+		c.Cfg.MaxSeg = 1024
+		c.Cfg.MinSeg = 1
+		c.Cfg.FragStr = "0.5"
+		c.Cfg.Frag = 0.5
+		c.Cfg.SyncMode = false
+		c.Pool = nil
+		for i := 0; i < 14; i++ {
+			c.Pool = append(c.Pool, []byte(fmt.Sprintf("q%02d", i)))
+		}
+		nfill := 6 + r.intn(5)
+		for i := 0; i < nfill; i++ {
+			c.Ops = append(c.Ops, Op{Kind: "put", K: c.Pool[i], V: patternBytes(50+r.intn(30), byte(i))})
+		}
+		c.Ops = append(c.Ops, Op{Kind: "del", K: c.Pool[r.intn(3)]})
+		if r.chance(40) {
+			c.Ops = append(c.Ops, Op{Kind: "del", K: c.Pool[r.intn(3)]})
+		}
+		kind := "crashtorn"
+		if r.chance(30) {
+			kind = "crashtornhdr"
+		}
+		c.Ops = append(c.Ops, Op{Kind: kind, K: c.Pool[13], V: patternBytes(300+r.intn(150), 'T')})
+		for i, n := 0, 8+r.intn(16); i < n; i++ {
+			c.Ops = append(c.Ops, Op{Kind: "put", K: c.Pool[11+r.intn(2)], V: patternBytes(30+r.intn(50), byte(r.next()))})
+			if r.chance(12) {
+				c.Ops = append(c.Ops, Op{Kind: "compact"})
+			}
+		}
+		c.Ops = append(c.Ops, Op{Kind: "compact"}, Op{Kind: "crashreopen"}, Op{Kind: "items"})
+		for i, n := 0, r.intn(10); i < n; i++ {
+			c.Ops = append(c.Ops, Op{Kind: "put", K: c.Pool[r.intn(14)], V: patternBytes(r.intn(60), byte(r.next()))})
+		}
+		c.Ops = append(c.Ops, Op{Kind: "compact"}, Op{Kind: "crashreopen"}, Op{Kind: "items"})
+		return c
+	}
 	if h.prop == "C02" && r.chance(50) {
 		// one long chain whose bucket is split (overflow buckets freed), then many short sessions that
 		// delete a key elsewhere and add one key to the chain: the key count stays the same while
